@@ -10,61 +10,49 @@ def M(nv, nval=4, **kw):
     for k, v in kw.items(): d[k] = "'%s'" % v if k in ('FSRC', 'GSRC', 'HSRC') else v
     return d
 
-_build_quick = [M(2, MODE=0), M(3, MODE=0), M(2, VBASE=3, MODE=0), M(2, MODE=1), M(3, 2, MODE=1)]
-_build_thorough = _build_quick + [M(3, MODE=1), M(4, MODE=0), M(3, VBASE=2, MODE=0), M(2, VBASE=3, MODE=1), M(4, 2, MODE=1, ONE_DEFAULT=None)]
+def H(name, src, quick, thorough, selftests=('VS_SELFTEST_1',), selftest_config=None):
+    return {'name': name, 'src': 'harness/C17/' + src, 'tus': MT_TUS, 'configs': {'quick': quick, 'thorough': quick + thorough},
+            'selftest_config': selftest_config or quick[0], 'selftests': list(selftests)}
 
-_apply_quick = [
-    M(2, KIND=0, FSRC='T', GSRC='C', OPSEL=0),              # plus mod 4, any function x cube
-    M(2, KIND=0, FSRC='C', GSRC='C', OPSEL=-1),             # drawn operation, cube x cube
-    M(2, 2, KIND=0, FSRC='T', GSRC='T', OPSEL=-1),          # drawn operation, any two 0/1 functions
-    M(3, 2, KIND=0, FSRC='C', GSRC='C', OPSEL=3),           # 3 variables (skipped levels), xor
-    M(2, VBASE=3, KIND=0, FSRC='C', GSRC='C', OPSEL=-1, ORDER=1),
-    M(2, KIND=1, FSRC='T', GSRC='K', OPSEL=-1),             # unary, drawn operation (merging and permuting leaves)
-    M(2, KIND=2, FSRC='C', GSRC='C', HSRC='K', OPSEL=0),    # ternary if-then-else
-    M(2, 2, KIND=2, FSRC='T', GSRC='T', HSRC='T', OPSEL=1), # ternary sum
-    M(2, 2, KIND=3, FSRC='T', GSRC='T', OPSEL=-1),          # operation tree with three drawn operations
-    M(2, KIND=4, FSRC='T', GSRC='C'),                       # void apply
-]
-_apply_thorough = _apply_quick + [
-    M(2, KIND=0, FSRC='T', GSRC='T', OPSEL=0, _time=1500), M(2, KIND=0, FSRC='T', GSRC='T', OPSEL=1, _time=1500),
-    M(2, KIND=0, FSRC='T', GSRC='T', OPSEL=2, ORDER=1, _time=1500), M(2, KIND=0, FSRC='T', GSRC='T', OPSEL=3, ORDER=1, _time=1500),
-    M(3, 2, KIND=0, FSRC='C', GSRC='C', OPSEL=-1),
-    M(2, KIND=1, FSRC='T', GSRC='C', OPSEL=-1),
-    M(2, KIND=2, FSRC='C', GSRC='C', HSRC='K', OPSEL=-1), M(2, 2, KIND=2, FSRC='T', GSRC='T', HSRC='T', OPSEL=-1),
-    M(2, KIND=3, FSRC='T', GSRC='C', OPSEL=1), M(2, KIND=4, FSRC='T', GSRC='T', _time=1500),
-]
-
-_shape_quick = [
-    M(2, KIND=0, PRJOP=1), M(2, KIND=0, PRJOP=0), M(3, 2, KIND=0, PRJOP=2),
-    M(2, KIND=1), M(3, 2, KIND=1),
-    M(2, KIND=2), M(3, 2, KIND=2, FSRC='D'),
-    M(2, KIND=3), M(3, 2, KIND=3),
-]
-_shape_thorough = _shape_quick + [
-    M(2, KIND=0, PRJOP=2, ORDER=1), M(3, 2, KIND=0, PRJOP=1), M(3, 2, KIND=0, PRJOP=0), M(2, VBASE=3, KIND=0, PRJOP=1),
-    M(2, VBASE=3, KIND=1), M(3, KIND=1, FSRC='D'),
-    M(3, KIND=2, FSRC='D'), M(2, VBASE=3, KIND=2, FSRC='D'),
-    M(2, VBASE=3, KIND=3), M(3, KIND=3, FSRC='D'),
+SLOW = {'_time': 2500}
+HARNESSES = [
+  # ---- construction from a cube with don't-care positions, GetValue (total / partial), GetPaths, constants, copies
+  H('cube', 'build.cc', [M(2, MODE=0), M(3, MODE=0), M(2, VBASE=3, MODE=0)],
+    [M(4, MODE=0), M(3, VBASE=2, MODE=0), M(3, 2, MODE=0)], selftests=('VS_SELFTEST_1', 'VS_SELFTEST_2')),
+  # ---- two cubes in one node store: same root <=> same function
+  H('equal', 'build.cc', [M(2, MODE=1), M(3, 2, MODE=1)], [M(3, MODE=1), M(2, VBASE=3, MODE=1), M(4, 2, MODE=1, ONE_DEFAULT=None)]),
+  # ---- binary apply: T any table, C cube, K constant; OPSEL -1 = drawn among plus mod n / max / min / xor
+  H('apply2', 'apply.cc',
+    [M(2, KIND=0, FSRC='C', GSRC='C', OPSEL=-1), M(2, KIND=0, FSRC='T', GSRC='C', OPSEL=0), M(2, 2, KIND=0, FSRC='T', GSRC='T', OPSEL=-1),
+     M(3, 2, KIND=0, FSRC='C', GSRC='C', OPSEL=3), M(2, VBASE=3, KIND=0, FSRC='C', GSRC='C', OPSEL=-1, ORDER=1), M(2, KIND=0, FSRC='T', GSRC='K', OPSEL=-1)],
+    [M(2, KIND=0, FSRC='T', GSRC='T', OPSEL=0, **SLOW), M(2, KIND=0, FSRC='T', GSRC='T', OPSEL=1, **SLOW), M(2, KIND=0, FSRC='T', GSRC='T', OPSEL=2, ORDER=1, **SLOW),
+     M(2, KIND=0, FSRC='T', GSRC='T', OPSEL=3, ORDER=1, **SLOW), M(3, KIND=0, FSRC='C', GSRC='C', OPSEL=0), M(3, 2, KIND=0, FSRC='T', GSRC='C', OPSEL=3),
+     M(3, 2, KIND=0, FSRC='C', GSRC='C', OPSEL=-1), M(3, 2, KIND=0, FSRC='T', GSRC='T', OPSEL=1, _heavy=1, **SLOW)],
+    selftest_config=M(2, 2, KIND=0, FSRC='T', GSRC='T', OPSEL=-1)),
+  H('apply1', 'apply.cc', [M(2, KIND=1, FSRC='T', GSRC='K', OPSEL=-1), M(3, 2, KIND=1, FSRC='C', GSRC='C', OPSEL=-1)],
+    [M(2, KIND=1, FSRC='T', GSRC='C', OPSEL=-1), M(3, KIND=1, FSRC='C', GSRC='K', OPSEL=-1)], selftest_config=M(2, 2, KIND=1, FSRC='T', GSRC='K', OPSEL=-1)),
+  H('apply3', 'apply.cc', [M(2, KIND=2, FSRC='C', GSRC='C', HSRC='K', OPSEL=0), M(2, 2, KIND=2, FSRC='T', GSRC='T', HSRC='T', OPSEL=1), M(2, KIND=2, FSRC='C', GSRC='K', HSRC='C', OPSEL=2)],
+    [M(2, KIND=2, FSRC='C', GSRC='C', HSRC='K', OPSEL=-1), M(2, 2, KIND=2, FSRC='T', GSRC='T', HSRC='T', OPSEL=-1), M(3, 2, KIND=2, FSRC='C', GSRC='C', HSRC='K', OPSEL=3), M(2, KIND=2, FSRC='T', GSRC='C', HSRC='K', OPSEL=0, **SLOW)]),
+  H('optree', 'apply.cc', [M(2, 2, KIND=3, FSRC='T', GSRC='T', OPSEL=-1), M(2, KIND=3, FSRC='C', GSRC='C', OPSEL=0)],
+    [M(2, KIND=3, FSRC='T', GSRC='C', OPSEL=1), M(2, KIND=3, FSRC='C', GSRC='C', OPSEL=-1, **SLOW)]),
+  H('voidapply', 'apply.cc', [M(2, KIND=4, FSRC='T', GSRC='C'), M(3, 2, KIND=4, FSRC='C', GSRC='C')], [M(2, KIND=4, FSRC='T', GSRC='T', **SLOW)],
+    selftest_config=M(2, 2, KIND=4, FSRC='T', GSRC='T')),
+  # ---- Project / Rename / ExtendWith / GetMtbddForPrefix
+  H('project', 'shape.cc', [M(2, KIND=0, PRJOP=1), M(2, KIND=0, PRJOP=0), M(3, 2, KIND=0, PRJOP=2)],
+    [M(2, KIND=0, PRJOP=2, ORDER=1), M(3, 2, KIND=0, PRJOP=1), M(3, 2, KIND=0, PRJOP=0), M(2, VBASE=3, KIND=0, PRJOP=1), M(3, KIND=0, PRJOP=0, FSRC='D')]),
+  H('rename', 'shape.cc', [M(2, KIND=1), M(3, 2, KIND=1)], [M(2, VBASE=3, KIND=1), M(3, KIND=1, FSRC='D')]),
+  H('extend', 'shape.cc', [M(2, KIND=2), M(3, 2, KIND=2, FSRC='D')], [M(3, KIND=2, FSRC='D'), M(2, VBASE=3, KIND=2, FSRC='D'), M(3, 2, KIND=2)]),
+  H('prefix', 'shape.cc', [M(2, KIND=3), M(3, 2, KIND=3)], [M(2, VBASE=3, KIND=3), M(3, KIND=3, FSRC='D')]),
 ]
 
 CHECKS = {
  'C17': {
   'level': 'model_checking',
-  'explanation': 'OndriksMTBDD<unsigned> and the Apply1/2/3 and VoidApply1/2 functors executed symbolically on every diagram of the configured universe: operands are drawn as arbitrary function tables (assembled through the public API from minterm diagrams), as cubes with don\'t-care positions or as constants, the leaf operation / removed variables / renaming / prefix / offset are drawn too. Every result is read back with GetValue on all total assignments and compared entry by entry with the leaf operation applied to the operand tables (oracle on plain arrays); canonicity is checked by assembling the oracle table independently, in another order, in the same process-wide node store and requiring the identical root (operator==), and by (x == y) <=> equal tables for all pairs of diagrams at hand; GetPaths must partition the assignment space; operands must be unchanged.',
-  'bounds': {'quick': 'functions over 2 variables with 4 leaf values and over 3 variables with 2 leaf values (cubes: 3 variables, 4 values), variables numbered from 0 or from 3 (straddling a byte of SymbolicVarAsgn); every cube, every table, every default value; leaf operations: plus mod n, max, min, xor; 4 unary and 4 ternary operations; operation trees of depth 2; 10..16 free bits per query',
-             'thorough': 'as quick plus both operands arbitrary tables over 2 variables/4 values for each binary operation, 4 variables for construction, further operation / order / variable-base combinations'},
-  'outside': 'more than 3 (construction: 4) variables, more than 4 leaf values, leaf types other than unsigned, diagrams whose variables exceed the length of the assignment passed to GetValue (precondition of the API), renamings that are not strictly monotone (precondition), Project with a non-idempotent operation is checked against its documented node-wise meaning only; unique tables with more than 13 internal nodes of symbolic content (second rehash: engine limitation, reported)',
-  'assumptions': ['assignments passed to GetValue / GetMtbddForPrefix are at least as long as the highest variable of the diagram requires (documented precondition; shorter ones read out of bounds)'],
-  'harnesses': [
-    {'name': 'build', 'src': 'harness/C17/build.cc', 'tus': MT_TUS,
-     'configs': {'quick': _build_quick, 'thorough': _build_thorough},
-     'selftest_config': M(2, MODE=0), 'selftests': ['VS_SELFTEST_1', 'VS_SELFTEST_2']},
-    {'name': 'apply', 'src': 'harness/C17/apply.cc', 'tus': MT_TUS,
-     'configs': {'quick': _apply_quick, 'thorough': _apply_thorough},
-     'selftest_config': M(2, 2, KIND=0, FSRC='T', GSRC='T', OPSEL=-1), 'selftests': ['VS_SELFTEST_1']},
-    {'name': 'shape', 'src': 'harness/C17/shape.cc', 'tus': MT_TUS,
-     'configs': {'quick': _shape_quick, 'thorough': _shape_thorough},
-     'selftest_config': M(2, KIND=0, PRJOP=1), 'selftests': ['VS_SELFTEST_1']},
-  ],
+  'explanation': 'OndriksMTBDD<unsigned> and the Apply1/2/3 and VoidApply1/2 functors executed symbolically on every diagram of the configured universe: operands are drawn as arbitrary function tables (assembled through the public API from minterm diagrams), as cubes with don\'t-care positions or as constants; the leaf operation, the removed variables, the renaming, the prefix and the offset are drawn too. Every result is read back with GetValue on all total assignments and compared entry by entry with the leaf operation applied to the operand tables (oracle on plain arrays); canonicity is checked by assembling the oracle table independently, in another order, in the same process-wide node store and requiring the identical root (operator==), and by (x == y) <=> equal tables for the diagrams at hand; GetPaths must partition the assignment space; operands must be unchanged; default values must be the operation applied to the default values.',
+  'bounds': {'quick': 'functions over 2 variables with 4 leaf values and over 3 variables with 2 leaf values (cubes: 3 variables, 4 values), variables numbered from 0 or from 3 (straddling a byte of SymbolicVarAsgn); every cube, every table, every default value; binary leaf operations plus mod n, max, min, xor; 4 unary and 4 ternary operations; operation trees of depth 2; every set of projected variables, every monotone renaming into twice as many variables, every prefix cube; 10..16 free bits per query',
+             'thorough': 'as quick plus both operands arbitrary tables over 2 variables/4 values for each binary operation and over 3 variables/2 values, cubes over 3 variables/4 values, 4 variables for construction, further operation / order / variable-base combinations (up to 20 free bits)'},
+  'outside': 'more than 3 (construction: 4) variables, more than 4 leaf values, leaf types other than unsigned, diagrams whose variables exceed the length of the assignment passed to GetValue (precondition of the API), renamings that are not strictly monotone (precondition), ExtendWith offsets at or below a variable of the diagram (precondition); Project with a non-idempotent operation is checked against its documented node-wise meaning; DumpToDot',
+  'assumptions': ['assignments passed to GetValue / GetMtbddForPrefix are at least as long as the highest variable of the diagram requires (documented precondition: shorter ones are read out of bounds)'],
+  'harnesses': HARNESSES,
  },
 }
